@@ -130,6 +130,10 @@ pub fn family(name: &str) -> GenCfg {
         // many candidates, most of them excluded or with unknown dependencies: far more than 64
         // negative assertions in one solve, requirements whose candidate lists are mostly ruled out
         // at level 1 before they are encoded
+        // long soft-requirement lists (up to 200 entries: duplicates, other versions of listed
+        // packages, excluded / locked-out / unknown-dependency solvables among them)
+        "many-soft" => GenCfg { npkg: 14, maxver: 6, ..GenCfg::medium().with_soft(200) },
+        "many-soft-hints" => GenCfg { hints: 1, ..family("many-soft") },
         "many-excl" => GenCfg { npkg: 4, maxver: 80, p_exclmany: 70, p_unknown: 12, p_lock: 15, p_con: 35, ..family("many") },
         "many-excl-hints" => GenCfg { hints: 1, ..family("many-excl") },
         other => panic!("unknown family {other}"),
